@@ -173,3 +173,5 @@ ax("class-kind-is-class", L.FA(c, z3.Implies(z3.And(TY.is_class(c), subclass(v, 
 # instances of a subclass conform to the superclass (mem on plain classes is subclass of the runtime class)
 ax("mem-class-super", L.FA([v, c, d], z3.Implies(z3.And(kind(c) == K["Class"], kind(d) == K["Class"], mem(v, c), subclass(c, d)), mem(v, d)),
                           [(mem(v, c), subclass(c, d))]))
+# class objects that occur as runtime values are plain classes (TypedDict classes as values are outside the value grammar)
+ax("wf-val-class", L.FA(v, z3.Implies(z3.And(wf_val(v), TY.is_class(v)), kind(v) == K["Class"]), [wf_val(v)]))
